@@ -30,12 +30,13 @@ type vzDisk struct {
 	writes               int                 // completed writes, all stores
 	commits              map[uint64][]string // every hash ever saved as committed, per height, in order
 	commitCH             map[uint64]tmconsensus.CommittedHeader
-	replayedSaved        map[string]uint64 // headers written through SaveRoundReplayedHeader (hash -> height)
-	replayAccepted       map[string]bool   // headers whose replay the engine answered without error
-	enteredRound         map[uint64]uint32 // highest round the state machine has entered per height, across incarnations (oracle bookkeeping)
-	commitDigest         map[uint64]string // what was saved, as a value (hash, proof round, signer key ids and signatures per target)
-	nhr                  [][4]uint64       // every network height/round ever set
-	fins                 map[uint64]string // finalization saved per height (hash|apphash|valhash)
+	onRecord             map[string]map[string]string // h/r -> kind -> signature the action store has accepted
+	replayedSaved        map[string]uint64            // headers written through SaveRoundReplayedHeader (hash -> height)
+	replayAccepted       map[string]bool              // headers whose replay the engine answered without error
+	enteredRound         map[uint64]uint32            // highest round the state machine has entered per height, across incarnations (oracle bookkeeping)
+	commitDigest         map[uint64]string            // what was saved, as a value (hash, proof round, signer key ids and signatures per target)
+	nhr                  [][4]uint64                  // every network height/round ever set
+	fins                 map[uint64]string            // finalization saved per height (hash|apphash|valhash)
 	finOverwriteAttempts int
 	lock                 map[uint64]string // the reference strategy's durable lock, per height
 }
@@ -84,6 +85,7 @@ func (s vzActionStore) SaveProposedHeaderAction(ctx context.Context, ph tmconsen
 	}
 	err := s.d.action.SaveProposedHeaderAction(ctx, ph)
 	s.nd.w.onActionSaved(s.nd, "proposal", ph.Header.Height, ph.Round, string(ph.Signature), err)
+	s.recorded(ctx, ph.Header.Height, ph.Round, "proposal", string(ph.Signature), err)
 	return err
 }
 func (s vzActionStore) SavePrevoteAction(ctx context.Context, pk gcrypto.PubKey, vt tmconsensus.VoteTarget, sig []byte) error {
@@ -92,6 +94,7 @@ func (s vzActionStore) SavePrevoteAction(ctx context.Context, pk gcrypto.PubKey,
 	}
 	err := s.d.action.SavePrevoteAction(ctx, pk, vt, sig)
 	s.nd.w.onActionSaved(s.nd, "prevote", vt.Height, vt.Round, string(sig), err)
+	s.recorded(ctx, vt.Height, vt.Round, "prevote", string(sig), err)
 	return err
 }
 func (s vzActionStore) SavePrecommitAction(ctx context.Context, pk gcrypto.PubKey, vt tmconsensus.VoteTarget, sig []byte) error {
@@ -100,8 +103,42 @@ func (s vzActionStore) SavePrecommitAction(ctx context.Context, pk gcrypto.PubKe
 	}
 	err := s.d.action.SavePrecommitAction(ctx, pk, vt, sig)
 	s.nd.w.onActionSaved(s.nd, "precommit", vt.Height, vt.Round, string(sig), err)
+	s.recorded(ctx, vt.Height, vt.Round, "precommit", string(sig), err)
 	return err
 }
+
+// recorded (C02): every signature the action store has accepted for a round is still on record after
+// every later save (it is the only guard against signing twice across restarts).
+func (s vzActionStore) recorded(ctx context.Context, h uint64, r uint32, kind, sig string, err error) {
+	if !s.nd.w.cfg.oracles["C02"] || s.nd.byz {
+		return
+	}
+	k := fmt.Sprintf("%d/%d", h, r)
+	if s.d.onRecord == nil {
+		s.d.onRecord = map[string]map[string]string{}
+	}
+	if s.d.onRecord[k] == nil {
+		s.d.onRecord[k] = map[string]string{}
+	}
+	if err == nil {
+		s.d.onRecord[k][kind] = sig
+	}
+	want := s.d.onRecord[k]
+	ra, lerr := s.d.action.LoadActions(ctx, h, r)
+	if lerr != nil {
+		if len(want) > 0 {
+			s.nd.w.orc.violate("C02", "recorded-signature-lost/load-failed", "%s: after saving a %s the action store cannot load round %d/%d any more: %v", s.nd.ident(), kind, h, r, lerr)
+		}
+		return
+	}
+	have := map[string]string{"proposal": string(ra.ProposedHeader.Signature), "prevote": ra.PrevoteSignature, "precommit": ra.PrecommitSignature}
+	for _, kk := range []string{"proposal", "prevote", "precommit"} {
+		if want[kk] != "" && have[kk] != want[kk] {
+			s.nd.w.orc.violate("C02", "recorded-signature-lost/"+kk, "%s: after saving a %s for round %d/%d the action store no longer holds the %s signature it had recorded for that round", s.nd.ident(), kind, h, r, kk)
+		}
+	}
+}
+
 func (s vzActionStore) LoadActions(ctx context.Context, h uint64, r uint32) (tmstore.RoundActions, error) {
 	return s.d.action.LoadActions(ctx, h, r)
 }
